@@ -404,7 +404,9 @@ def main():
     for opspec in spec['ops']:
         op, nq, nt = opspec[0], opspec[1], opspec[2]
         extra = opspec[3] if len(opspec) > 3 else ()
-        n = min(nt, 12 * nq) if tier == 'thorough' else nq   # thorough: ~12x the quick volume (10-20 min per property)
+        # thorough: ~12x the quick volume; ops marked 'exact' enumerate a finite space and take their full count
+        exact = len(opspec) > 4 and opspec[4] == 'exact'
+        n = (nt if exact else min(nt, 12 * nq)) if tier == 'thorough' else nq
         t1 = time.time()
         if op in HOOKED_OPS and not HOOKS['ok']:
             corr_only.append((op, 'hooks-unavailable', [], ['corr:hooks-unavailable'], HOOKS['note']))
